@@ -198,6 +198,17 @@ units.append(emit_unit("comp.emit.upvalue-range", "h_emit_ss", ["janetc_emit_ss"
                        [M_UPFIELDS], defines=["-DEM_MAXUP=0xFFFF"], assumes=[A_VM, A_ALLOC, A_SLOT, A_WR, A_LOADCONST, A_NOGROW]))
 
 
+units.append({"id": "comp.regalloc.temp-roundtrip", "props": ["C02"], "tier": "quick", "class": "bounded",
+              "bound": "allocator of 1..10 chunks (registers 0..319) with arbitrary contents and capacity 16 (no reallocation)",
+              "clause": "a temporary register taken with janetc_regalloc_temp and given back with janetc_regalloc_freetemp leaves the set of allocated registers exactly as it was - "
+                        "also when registers 0..0xEF are all live and the reserved temporary 0xF0+tag is handed out: emitting an instruction consumes no register, so the number of "
+                        "live locals does not limit the size of the code that follows",
+              "src": ["emit.c", "regalloc.c"], "harness": ["comp_emit.c"], "entry": "h_temp_roundtrip", "mode": "plain", "nanbox": False,
+              "functions": ["janetc_regalloc_temp", "janetc_regalloc_freetemp", "janetc_regalloc_1", "janetc_regalloc_free"],
+              "checks": CHECKS + ["signed-overflow-check"], "unwind": 18, "unwinding_assertions": True, "timeout": 300, "defines": ["-DEM_REAL_REGALLOC"],
+              "assumes": ["representation invariant wf_ra of the regalloc.* units: chunk 7 (once it exists) has the 16 reserved temporaries allocated; the tag requested is free"],
+              "mutants": [M("free-never", "    if (reg < 0xF0)\n        janetc_regalloc_free(ra, reg);", "", "as it was", file="regalloc.c")]})
+
 # ================================================================ compile.c: calls and constructors (harness/comp_call.c)
 CALL_RC = ["janetc_emit_s:cl_emit_s_stub", "janetc_emit_ss:cl_emit_ss_stub", "janetc_emit_sss:cl_emit_sss_stub", "janetc_freeslot:cl_freeslot_stub",
            "janet_sfree:cl_sfree_stub", "janetc_allocfar:cl_allocfar_stub", "janet_formatc:cl_formatc_stub", "janet_cstring:cl_cstring_stub"]
@@ -317,6 +328,15 @@ units.append({
                 MC("parent-frame-marker-wrong", "    int32_t envindex = -1;\n    while (scope) {", "    int32_t envindex = 0;\n    while (scope) {", "frame of the function"),
                 MC("dead-code-captures", "    if (unused || foundlocal) {", "    if (foundlocal) {", "captures nothing"),
                 MC("var-not-mutable", "                ret.flags |= JANET_SLOT_REF | JANET_SLOT_NAMED | JANET_SLOT_MUTABLE | JANET_SLOTTYPE_ANY;", "                ret.flags |= JANET_SLOT_REF | JANET_SLOT_NAMED | JANET_SLOTTYPE_ANY;", "only a var is assignable")]})
+
+import copy
+u2 = copy.deepcopy(units[-1])
+u2["id"] = "comp.resolve.upvalue-range"
+u2["defines"] = ["-DRS_UPVALUE_RANGE"]
+u2["clause"] = ("janetc_resolve never hands out an upvalue slot that JOP_LOAD_UPVALUE / JOP_SET_UPVALUE cannot address (captured register or environment number above 255) "
+                "without reporting a compile error - a function with more than 255 live locals may capture any of them")
+u2["mutants"] = [u2["mutants"][2]]
+units.append(u2)
 
 json.dump({"units": units}, open(os.path.join(VERIF, "units", "C02_emit.json"), "w"), indent=1)
 print("wrote", len(units), "units")
